@@ -62,7 +62,8 @@ def _parse_ruby_link(
         # standard ref link [text][label]
         label, link_pos = parse_link_label(state.src, pos + 1)
         if label and link_pos:
-            ref_links = state.env["ref_links"]
+            # inline text may be parsed without a document (the TOC parses heading text with an empty env)
+            ref_links = state.env.get("ref_links") or {}
             key = unikey(label)
             env = ref_links.get(key)
             if env:
